@@ -154,15 +154,29 @@ func (e *Encoder) writeMap(data interface{}) (int, error) {
 // setMapEntry stores a decoded entry; a null key or value is the zero value
 // of the map's key or element type (a map ends at 'Z', not at a null key).
 func setMapEntry(m reflect.Value, key, value interface{}) {
-	k := EnsureRawValue(key)
-	if !k.IsValid() {
-		k = reflect.Zero(m.Type().Key())
+	m.SetMapIndex(convertMapItem(m.Type().Key(), key), convertMapItem(m.Type().Elem(), value))
+}
+
+// convertMapItem converts a decoded key or value to the key or element type of
+// the destination map (int32 -> int, *T -> T, generic map -> map[K]V, ...).
+func convertMapItem(typ reflect.Type, in interface{}) reflect.Value {
+	raw := EnsureRawValue(in)
+	if !raw.IsValid() {
+		return reflect.Zero(typ)
 	}
-	v := EnsureRawValue(value)
-	if !v.IsValid() {
-		v = reflect.Zero(m.Type().Elem())
+	if raw.Type() == typ || typ.Kind() == reflect.Interface {
+		return raw
 	}
-	m.SetMapIndex(k, v)
+	if typ.Kind() == reflect.Map && raw.Kind() == reflect.Map {
+		mp := reflect.MakeMap(typ)
+		for _, k := range raw.MapKeys() {
+			mp.SetMapIndex(convertMapItem(typ.Key(), k.Interface()), convertMapItem(typ.Elem(), raw.MapIndex(k).Interface()))
+		}
+		return mp
+	}
+	v := reflect.New(typ).Elem()
+	SetValue(v, raw)
+	return v
 }
 
 //readTypedMap read typed map
